@@ -19,7 +19,7 @@ class H:
 
 
 class KaniUnit:
-    def __init__(self, crate, attach, harnesses, contracts=(), features=None, anchors=(), replay_module=None, env=None, cbmc_args=()):
+    def __init__(self, crate, attach, harnesses, contracts=(), features=None, anchors=(), replay_module=None, env=None, cbmc_args=(), jobs=None):
         self.crate = crate
         self.attach = attach            # [(rel source file, contract module rel to /verif, module name)]
         self.harnesses = harnesses
@@ -27,6 +27,7 @@ class KaniUnit:
         self.features = features
         self.anchors = list(anchors)    # [(rel file, fn, within)] functions that must still exist
         self.replay_module = replay_module
+        self.jobs = jobs                  # parallel harnesses (default lib/kani.py JOBS); light harnesses can use more
         self.cbmc_args = list(cbmc_args)  # passed through to CBMC (e.g. a larger unwind bound for the builtin memcmp only)
         self.env = dict(env or {})      # extra environment for cargo kani (e.g. RUSTFLAGS enabling a nightly feature the stubs need)
 
